@@ -21,8 +21,8 @@ FIELD_SETS = [["id", "name"], ["amount", "day", "kind", "id"], ["code", "tag", "
               ["num", "kind", "id"], ["const", "name"], ["tag", "id"], ["note", "amount", "name"], ["id", "stamp"], ["stamp", "day", "name"], ["id", "memo", "name"], ["memo", "kind"]]
 
 
-def store_rows(rows, storage, name, odf_features=None, sheet=1):
-    path = os.path.join(readermachine.tmpdir(), "%s_%d.%s" % (name, os.getpid(), storage))
+def store_rows(rows, storage, name, odf_features=None, sheet=1, suffix=None):
+    path = os.path.join(readermachine.tmpdir(), "%s_%d.%s" % (name, os.getpid(), suffix or storage))
     if storage == "csv":
         with open(path, "w", newline="", encoding="utf-8") as stream:
             csv.writer(stream, lineterminator="\n").writerows(rows)
@@ -68,6 +68,10 @@ def judge_cid(case, part):
             part.transitions += 1
             key = storage if features is None else storage + ("+comments" if features.get("annotations") else "+runs")
             signatures[key] = c09.signature(cid) if cid is not None else outcome
+        # the same file under a name whose suffix is written in capitals or mixed case
+        outcome, cid = load(store_rows(rows, storage, "CID", None, suffix={"csv": "CSV", "ods": "ODS", "xlsx": "Xlsx"}[storage]))
+        part.transitions += 1
+        signatures[storage + "+capital-suffix"] = c09.signature(cid) if cid is not None else outcome
     part.validated += len(signatures) - 1
     reference = signatures["csv"]
     part.state(reference if not isinstance(reference, str) else (reference,))
@@ -187,6 +191,9 @@ def tables_for(fields, count):
         table = [list(base_rows[0]), list(base_rows[1]), list(base_rows[2])]
         table[1][fields.index("day")] = base_rows[1][fields.index("day")] + " 00:00:00"
         tables.append((table, "midnight-suffix"))
+    # every row one cell wider than the CID, the surplus cell empty in all rows but the first: too many items in every storage format
+    table = [list(base_rows[0]) + ["zz"], list(base_rows[1]) + [""], list(base_rows[2]) + [""]]
+    tables.append((table, True))
     # a row of empty cells only between other rows: a row like any other in every storage format
     tables.append(([list(base_rows[0]), [""] * len(fields), list(base_rows[1])], True))
     if len(fields) >= 3:
